@@ -21,6 +21,48 @@ from . import C21
 FILTERS = [('proc',), ('mod',), ('proc', 'mod')]
 
 
+# validation corpus: loki/batch/tests/test_scheduler_processing.py::test_scheduler_traversal_order (projHoist).
+# The hand-written expected call orders are fed to TLC as if observed (the specification must accept them).
+def hoist_project():
+    def imp(mod, *only):
+        return {'mod': mod, 'only': list(only)}
+    mods = [{'name': 'transformation_module_hoist', 'file': 'driver_mod', 'vars': ['len'], 'params': ['len'],
+             'imports': [imp('subroutines_mod', 'kernel1', 'kernel2', 'device1', 'device2', 'kernel3')]},
+            {'name': 'subroutines_mod', 'file': 'subroutines_mod', 'vars': ['len'], 'params': ['len'], 'imports': []}]
+    mk = lambda n, m, *calls: {'name': n, 'mod': m, 'imports': [], 'calls': list(calls)}   # noqa: E731
+    procs = [mk('driver', 'transformation_module_hoist', 'kernel1', 'kernel2'),
+             mk('another_driver', 'transformation_module_hoist', 'kernel1'),
+             mk('yet_another_driver', 'transformation_module_hoist', 'kernel3'),
+             mk('kernel1', 'subroutines_mod'), mk('kernel2', 'subroutines_mod', 'device1', 'device2'),
+             mk('device1', 'subroutines_mod', 'device2'), mk('device2', 'subroutines_mod'),
+             mk('kernel3', 'subroutines_mod', 'device3'), mk('device3', 'subroutines_mod')]
+    return L.normalize_project({'mods': mods, 'procs': procs})
+
+
+HOIST_ORDER = ['transformation_module_hoist#driver', 'subroutines_mod#kernel1', 'subroutines_mod#kernel2',
+               'subroutines_mod#device1', 'subroutines_mod#device2']
+HOIST_EDGES = [['transformation_module_hoist#driver', 'subroutines_mod#kernel1'],
+               ['transformation_module_hoist#driver', 'subroutines_mod#kernel2'],
+               ['subroutines_mod#kernel2', 'subroutines_mod#device1'], ['subroutines_mod#kernel2', 'subroutines_mod#device2'],
+               ['subroutines_mod#device1', 'subroutines_mod#device2']]
+
+
+def hoist_expectations():
+    """(manifest, graph, visits) for the four parametrisations of the repository test."""
+    files = {n: ('driver_mod' if n.startswith('transformation') else 'subroutines_mod') for n in HOIST_ORDER}
+    graph = {'items': [{'name': n, 'kind': 'proc', 'ignored': False, 'file': files[n]} for n in HOIST_ORDER], 'edges': HOIST_EDGES}
+    out = []
+    for fg in (False, True):
+        for rev in (False, True):
+            units = ['driver_mod', 'subroutines_mod'] if fg else list(HOIST_ORDER)
+            if rev:
+                units = units[::-1]
+            visits = [{'meth': 'file' if fg else 'subroutine', 'plan': False, 'item': u, 'unit': u, 'role': 'none', 'mode': 'none',
+                       'targets': []} for u in units]
+            out.append(({'filter': ['proc'], 'reverse': rev, 'filegraph': fg, 'procign': False, 'plan': False}, graph, visits))
+    return out
+
+
 def make_probe(man):
     """A probe transformation with the given manifest; records every transform_* / plan_* call."""
     from loki.batch import Transformation, ProcedureItem, ModuleItem
@@ -148,7 +190,7 @@ def run(ctx):
         for man in mans:
             visits, raised = process_case(sched, graph, paths, man)
             runs.append(({'P': project, 'C': config, 'fp': fp, 'ei': ei, 'layout': layout, 'plain': plain, 'origin': origin, 'man': man},
-                         {'P': P, 'C': config, 'graph': graph, 'man': man, 'visits': visits, 'raised': raised}))
+                         {'P': P, 'C': config, 'graph': graph, 'man': man, 'visits': visits, 'raised': raised, 'payload': True}))
         if not os.environ.get('VERIF_KEEP'):
             shutil.rmtree(root, ignore_errors=True)
         return len(mans)
@@ -160,16 +202,27 @@ def run(ctx):
     else:
         # ---- 2. the repository's traversal-order expectation (test_scheduler_traversal_order) is an instance
         #         of the rule "any topological order"; it is replayed through the corpus projects of C21
+        hproj = hoist_project()
+        hcfg = L.make_config(['driver'], disable=['abort'])
+        for man, graph, visits in hoist_expectations():
+            runs.append(({'P': hproj, 'C': hcfg, 'fp': True, 'ei': True, 'layout': 0, 'plain': True, 'origin': 'corpus-expectation:traversal_order', 'man': man},
+                         {'P': L.tla_project(hproj), 'C': hcfg, 'graph': graph, 'man': man, 'visits': visits, 'raised': '', 'payload': False}))
+        hdir = os.path.join(core.REPO, 'loki', 'tests', 'sources', 'projHoist', 'module')
+        corpora = [(hproj, {'driver_mod': f'{hdir}/driver_mod.f90', 'subroutines_mod': f'{hdir}/subroutines_mod.f90'},
+                    [f'{hdir}/driver_mod.f90', f'{hdir}/subroutines_mod.f90'], [('traversal_order', hcfg, None, None)])]
         cproj = C21.corpus_project()
         cpaths, search = C21.corpus_paths()
-        for name, cfg, _, _ in C21.CORPUS:
-            cfg_dict, seeds = L.render_config(cfg, L.Layout(plain=True), enable_imports=True)
-            sched = L.build_scheduler(None, cfg_dict, seeds, True, paths=search)
-            graph = L.project_graph(sched, cpaths)
-            for man in manifests(ctx.rng, 4, True):
-                visits, raised = process_case(sched, graph, cpaths, man)
-                runs.append(({'P': cproj, 'C': cfg, 'fp': True, 'ei': True, 'layout': 0, 'plain': True, 'origin': f'corpus:{name}', 'man': man},
-                             {'P': L.tla_project(cproj), 'C': cfg, 'graph': graph, 'man': man, 'visits': visits, 'raised': raised}))
+        corpora.append((cproj, cpaths, search, C21.CORPUS))
+        for proj_, paths_, search_, entries in corpora:
+            for name, cfg, _, _ in entries:
+                cfg_dict, seeds = L.render_config(cfg, L.Layout(plain=True), enable_imports=True)
+                sched = L.build_scheduler(None, cfg_dict, seeds, True, paths=search_)
+                graph = L.project_graph(sched, paths_)
+                for man in manifests(ctx.rng, 4, True):
+                    visits, raised = process_case(sched, graph, paths_, man)
+                    runs.append(({'P': proj_, 'C': cfg, 'fp': True, 'ei': True, 'layout': 0, 'plain': True, 'origin': f'corpus:{name}', 'man': man},
+                                 {'P': L.tla_project(proj_), 'C': cfg, 'graph': graph, 'man': man, 'visits': visits, 'raised': raised,
+                                  'payload': True}))
         ncorpus = len(runs)
         # ---- 3. TLC-enumerated small projects, 4. seeded larger ones
         small = []
@@ -205,8 +258,8 @@ def run(ctx):
             nvisits += len(t['visits'])
             multi += len(t['visits']) > 1
             continue
-        if case['origin'].startswith('corpus'):
-            raise MachineryError(f'validation corpus: the specification rejects the processing of the repository project '
+        if case['origin'].startswith('corpus-expectation'):
+            raise MachineryError(f'validation corpus: the specification rejects the hand-written expectation of the repository test '
                                  f'{case["origin"]} {case["man"]}: clause {clause} at visit {pos}: {json.dumps(t["visits"])[:800]} {t["raised"]}')
         if clause == 'illegal-input':
             raise MachineryError(f'illegal input reached validation: {json.dumps(case)[:600]}')
@@ -264,7 +317,7 @@ def shrink_many(ctx, todo, max_rounds, observe_fn):
                 if o['raised'].startswith('build:'):
                     continue
                 batch.append({'P': L.tla_project(p2), 'C': c2, 'graph': o['graph'], 'man': case['man'], 'visits': o['visits'],
-                              'raised': o['raised']})
+                              'raised': o['raised'], 'payload': True})
                 owner.append((tag, p2, c2))
         if not batch:
             break
